@@ -58,13 +58,13 @@ class ScoreStream(AlignStream):
 # ------------------------------------------------------------------------------------------------ end to end
 # every set changes all six scoring values; ms != bs and sp != -su everywhere so that swapped wiring changes the outcome
 SCORE_PARAM_SETS = [
-    ['-d', '1200', '-sp', '800', '-dp', '0.5', '-su', '-100', '-ms', '1500', '-bs', '900'],
+    ['-d', '1234', '-sp', '800', '-dp', '0.5', '-su', '-100', '-ms', '1500', '-bs', '900'],      # -d not a multiple of -r2 / of 50
     ['-d', '2000', '-sp', '1000', '-dp', '2', '-su', '-500', '-ms', '500', '-bs', '2400', '-sj', '0.5'],
-    ['-d', '900', '-sp', '1500', '-dp', '1', '-su', '-300', '-ms', '3000', '-bs', '1000'],
-    ['-d', '1600', '-sp', '600', '-dp', '0.5', '-su', '-50', '-ms', '700', '-bs', '2000', '-p', '5'],
+    ['-d', '951', '-sp', '1500', '-dp', '1', '-su', '-300', '-ms', '3000', '-bs', '1000'],
+    ['-d', '1649', '-sp', '600', '-dp', '0.5', '-su', '-50', '-ms', '700', '-bs', '2000', '-p', '5'],
     ['-d', '2500', '-sp', '1200', '-dp', '1', '-su', '0', '-ms', '2400', '-bs', '600'],
     ['-d', '1000', '-sp', '400', '-dp', '0.5', '-su', '-400', '-ms', '400', '-bs', '1600', '-diff', '30000'],
-    ['-d', '1800', '-sp', '2000', '-dp', '2', '-su', '-1000', '-ms', '2000', '-bs', '4000', '-ss', '1'],
+    ['-d', '1777', '-sp', '2000', '-dp', '2', '-su', '-1000', '-ms', '2000', '-bs', '4000', '-ss', '1'],
     [],
 ]
 TOL = 0.005
